@@ -99,6 +99,31 @@ CLAIMED = {
         note="Times in 1/1000 fixed point, tolerance 2/1000. Known finding: int() truncation in int_pivot mode (deficit < 1).",
         technique="TLA+ model of the pivot bookkeeping model-checked by TLC; recorded samples explained and judged by TLC (trace validation with inference)",
         design="4/C16"),
+    "C05": dict(
+        text="GammaRun.tla models compute_gamma as main thread + worker pool; TLC explores all interleavings: exactly N + extra "
+             "samples are drawn and aligned, none without a precision level, results collected in sampling order, "
+             "termination. Every real run (random continuum x mode x sampler x precision x n_samples x ground truth) is "
+             "recorded by a recording executor, recording sampler subclasses and algorithm probes and judged by "
+             "TraceGamma.tla: sample count = max(n, ceil((1.96 CV/p)^2)) decided with exact big-number arithmetic in TLA+, "
+             "one fresh valid sample per chance alignment in order, requested kind of alignment for input and samples, "
+             "observed/expected/gamma relations, gamma <= 1, gamma = 1 for identical annotators.",
+        note="CV^2 enters TLC as a rational approximation (denominator <= 1e9) of the float the library computed from the "
+             "logged first-batch disorders; a relative band of 1e-7 around the ceil is not judged. Named precision levels "
+             "per the code's table (high 1%, medium 2%, low 10%).",
+        technique="TLC model checking of the concurrent run (GammaRun) + TLC trace validation of recorded runs (TraceGamma, BigNat)",
+        design="4/C05"),
+    "C06": dict(
+        text="TLC checks on GammaRun.tla, over all interleavings and 1-3 workers, that the chance sequence is a function of the "
+             "seed alone (mutants: sampling inside the job, collection in completion order). The job completion orders TLC "
+             "reaches, plus FIFO/LIFO/lazy/eager and random permutations, drive a schedule-controlled executor substituted "
+             "for ThreadPoolExecutor (real distinct threads, one job at a time); real pools of 1/2/4/16 workers, repetition "
+             "in one process and fresh processes with other PYTHONHASHSEED values complete the environments. All result "
+             "vectors (observed, chance sequence, gamma, gamma-cat, gamma-k) of one configuration and seed must be "
+             "bit-identical; recorded pool events must show every draw in the main thread before its job's submission.",
+        note="Interleavings inside a job (numba, cvxpy, CBC) are not modelled; exact float equality is used because the "
+             "unchanged tree shows no last-bit noise.",
+        technique="TLC model checking over all schedules + TLC-generated schedules replayed through a controlled executor; trace validation of pool events",
+        design="4/C06"),
 }
 PENDING = {}
 
